@@ -394,10 +394,12 @@ OptNamesOK(opts, allowed) == \A i \in 1..Len(opts) : opts[i][1] \in allowed
 OptVal(opts, n, dflt) == LET j == OptFind(opts, n, Len(opts)) IN IF j = 0 THEN dflt ELSE opts[j][2]
 
 CallBuiltin(st, env, name, args, opts) ==
+  \* options given to a builtin that takes none: an exception, but its precedence over the arity
+  \* and type errors of the same call is an implementation detail -> outside the model
   IF name \in PureNames THEN
-    IF opts # <<>> /\ name # "nop" THEN Throw(st, env, CBadOpt)
+    IF opts # <<>> /\ name # "nop" THEN Throw(st, env, OOM("options given to a builtin without options"))
     ELSE LET p == Pure(name, args) IN Res(st, env, <<>>, p.out, p.exc)
-  ELSE IF opts # <<>> /\ name \notin {"range", "order"} THEN Throw(st, env, CBadOpt)
+  ELSE IF opts # <<>> /\ name \notin {"range", "order"} THEN Throw(st, env, OOM("options given to a builtin without options"))
   ELSE CASE name = "count" ->
               IF Len(args) > 1 THEN Throw(st, env, CArity)
               ELSE IF Len(args) = 1 THEN
@@ -417,7 +419,10 @@ CallBuiltin(st, env, name, args, opts) ==
               ELSE LET i == Inputs(st, args, 0) IN
                    IF ~i.ok THEN Throw(st, env, i.c)
                    ELSE IF name = "all" THEN Outs(i.st, env, i.vs)
-                   ELSE IF name = "compact" THEN Outs(i.st, env, CompactSeq(i.vs, 1))
+                   ELSE IF name = "compact" THEN
+                          (IF \E q \in 1..(Len(i.vs) - 1) : EqUndecided(i.vs[q], i.vs[q + 1])
+                           THEN Throw(i.st, env, OOM("identity of exception values"))
+                           ELSE Outs(i.st, env, CompactSeq(i.vs, 1)))
                    ELSE IF Len(i.vs) = 1 THEN Outs(i.st, env, i.vs) ELSE Throw(i.st, env, CArity)
          [] name \in {"take", "drop"} ->
               IF Len(args) < 1 \/ Len(args) > 2 THEN Throw(st, env, CArity)
@@ -430,10 +435,10 @@ CallBuiltin(st, env, name, args, opts) ==
                              ELSE Outs(i.st, env, SubSeq(i.vs, m + 1, Len(i.vs)))
          [] name = "range" ->
               IF ~OptNamesOK(opts, {"step"}) THEN Throw(st, env, CBadOpt)
-              ELSE IF Len(args) < 1 \/ Len(args) > 2 THEN Throw(st, env, CArity)
               ELSE LET ns == NumArgs(args \o (IF opts = <<>> THEN <<>> ELSE <<OptVal(opts, "step", VNil)>>)) IN
                    IF AnyUnk(ns) THEN Throw(st, env, COOM)
-                   ELSE IF AnyNotNum(ns) THEN Throw(st, env, CType)
+                   ELSE IF AnyNotNum(ns) THEN Throw(st, env, CType)      \* arguments are converted first,
+                   ELSE IF Len(args) < 1 \/ Len(args) > 2 THEN Throw(st, env, CArity)   \* then counted
                    ELSE LET start == IF Len(args) = 1 THEN 0 ELSE ns[1].n
                             end == IF Len(args) = 1 THEN ns[1].n ELSE ns[2].n
                             hasStep == opts # <<>>
@@ -455,10 +460,10 @@ CallBuiltin(st, env, name, args, opts) ==
                    IF ~i.ok THEN Throw(st, env, i.c)
                    ELSE KeepLoop(i.st, env, args[1], i.vs, 1, Done(i.st, env))
          [] name = "order" ->
-              IF ~OptNamesOK(opts, {"reverse", "key"}) THEN
+              IF Len(args) > 1 THEN Throw(st, env, CArity)
+              ELSE IF ~OptNamesOK(opts, {"reverse", "key"}) THEN
                    (IF OptNamesOK(opts, {"reverse", "key", "less-than", "total"}) THEN Throw(st, env, COOM)
                     ELSE Throw(st, env, CBadOpt))
-              ELSE IF Len(args) > 1 THEN Throw(st, env, CArity)
               ELSE LET rev == OptVal(opts, "reverse", VBool(FALSE))
                        key == OptVal(opts, "key", VNil)
                    IN IF rev.k # "bool" \/ key.k \notin {"nil", "fn"} THEN Throw(st, env, COOM)
@@ -468,7 +473,9 @@ CallBuiltin(st, env, name, args, opts) ==
                                           ELSE KeyLoop(i.st, env, key, i.vs, 1, Vals(i.st, env, <<>>))
                                 IN IF Failed(rk) THEN rk
                                    ELSE LET items == [q \in 1..Len(i.vs) |-> [v |-> i.vs[q], key |-> rk.vs[q]]]
-                                        IN IF ~AllComparable(items) THEN
+                                        IN IF \E q1 \in 1..Len(items) : \E q2 \in 1..Len(items) : EqUndecided(items[q1].key, items[q2].key)
+                                           THEN Throw(rk.st, env, OOM("identity of exception values"))
+                                           ELSE IF ~AllComparable(items) THEN
                                              \* an uncomparable pair is an error if the sort meets it
                                              (IF AnyUncomparableAdjacent(items) \/ Len(items) <= 12 THEN Throw(rk.st, env, CBadValue)
                                               ELSE Throw(rk.st, env, COOM))
